@@ -147,12 +147,10 @@ def task_roundtrip(name: str, col: common.Collector) -> None:
     col.notes.setdefault("usable_sources", []).append(name)
     diffs = H.compare_dbs(db1, db2)
     col.count("roundtrip_fields_compared_sources")
-    for (kind, c, f), d in sorted(H.diff_keys(diffs).items()):
-        col.violation((kind, c, f), dict(base, path=d["path"], loaded_from_source=d["first"],
-                                         after_write_and_reload=d["second"],
-                                         occurrences=sum(1 for x in diffs if (x["kind"], x["cls"],
-                                                                              x["field"]) ==
-                                                         (kind, c, f))))
+    keyed = H.diff_keys(diffs)
+    for key, d in sorted(keyed.items()):
+        col.violation(key, dict(base, path=d["path"], loaded_from_source=d["first"],
+                                after_write_and_reload=d["second"]))
     # (2) second write identical
     col.ev()
     try:
@@ -244,8 +242,8 @@ def _judge_entry(col: common.Collector, entry: str, name: str, ref: Any, ref_ext
     col.nontrivial(("entry", entry, name))
     col.count("entry:" + entry.split("/")[0])
     diffs = H.compare_dbs(ref, db)
-    for (kind, c, f), d in sorted(H.diff_keys(diffs).items()):
-        col.violation(("entry-point-differs", entry.split("/")[0], c, f),
+    for key, d in sorted(H.diff_keys(diffs).items()):
+        col.violation(("entry-point-differs", entry.split("/")[0]) + tuple(key[1:]),
                       dict(base, path=d["path"], from_archive=d["first"], from_entry=d["second"]))
     ex = _db_extras(db)
     for k in ("short_name", "model_version"):
